@@ -177,6 +177,16 @@ def run_case(case, stats: Counter):
                 # asyncstdlib never performed that use (e.g. it does not re-poll an exhausted source
                 # where the stdlib does): the premise "raises at its k-th use" is not met -> C05's matter
                 stats["fault_not_reached_by_asyncstdlib"] += 1
+                if kind == "fn" and raised and (list(sync.out) != list(asy.out) or tuple(sync.term) != tuple(asy.term)):
+                    # a user CALLABLE is invoked exactly when the counterpart invokes it (C05), so its k-th use is
+                    # due; the library skipped the call and with it the exception the counterpart surfaces there
+                    stats["callable_fault_skipped"] += 1
+                    key = classify(spec, kind, "callable-not-invoked", sync, asy, case)
+                    viols.append({"key": key,
+                                  "msg": f"{tool} {spec['params']} srcs={spec['srcs']} flav={flav} fn={fnfl}: fault "
+                                         f"{case['exc']} at use {k} of fn{index}: stdlib makes that call, gives "
+                                         f"{len(sync.out)} items then {sync.term}; asyncstdlib never makes the call and "
+                                         f"gives {len(asy.out)} items then {asy.term}"})
                 continue
             problem = None
             if list(sync.out) != list(asy.out):
